@@ -266,6 +266,13 @@ def aggregations(tier, seed):
             check_mesh(rec, rng, m, kinds_all, [1, 2, 3], reds, counts)
     for m in cat[:8] if tier == "quick" else cat[:30]:
         check_unsupported(rec, m)
+    # a face with more than 255 corner nodes (coastline / shapefile polygon) next to ordinary faces
+    nbig = 300
+    ang = np.linspace(0.0, 2 * np.pi, nbig, endpoint=False)
+    blon = list(20.0 + 8.0 * np.cos(ang)) + [40.0, 50.0, 45.0, 60.0, 70.0, 70.0, 60.0]
+    blat = list(10.0 + 8.0 * np.sin(ang)) + [0.0, 0.0, 8.0, 0.0, 0.0, 10.0, 10.0]
+    big = mg.mk("polygon_with_300_corners", blon, blat, [[nbig, nbig + 1, nbig + 2], list(range(nbig)), [nbig + 3, nbig + 4, nbig + 5, nbig + 6]])
+    check_mesh(rec, rng, big, ["float64", "int64"], [1, 2], ["mean", "sum", "max", "std"], counts)
     hist = [x for x in cat if len(set(mg.npf(x["faces"]).tolist())) > 1][: (6 if tier == "quick" else 40)] + cat[:3]
     for m in hist:
         check_subset_history(rec, rng, m)
